@@ -1429,10 +1429,18 @@ func (vm *VM) run() (Addr, bool) {
 						}
 					}
 				default:
+					var length int
 					if kind == reflect.Pointer {
-						v = v.Elem()
+						// v is a pointer to an array.
+						length = v.Type().Elem().Len()
+						if !v.IsNil() {
+							v = v.Elem()
+						} else if c != 0 && length > 0 {
+							panic(errNilPointer)
+						}
+					} else {
+						length = v.Len()
 					}
-					length := v.Len()
 					for i := range length {
 						if b != 0 {
 							vm.setInt(b, int64(i))
